@@ -391,11 +391,14 @@ class Lane(LaneBase):
     def source_obligations(self):
         from harness.srcgen import c07_dontcare
         try:
-            texts = c07_dontcare.dont_care_texts()
+            try:
+                texts = c07_dontcare.dont_care_texts()
+            except Exception:  # noqa: BLE001 -- not in the text any more: the table computed by execution (see the extractor)
+                texts = c07_dontcare.dont_care_by_execution()[1]
         except Exception as e:  # noqa: BLE001
-            return [('dont_care_direction list of Edge.__eq__ can be extracted', False, repr(e))]
-        return [('dont_care_direction list of Edge.__eq__ is [--, <>, oo] (pinned by CG.C07.dontCare_eq)',
-                 texts == ['--', '<>', 'oo'], repr(texts))]
+            return [('the direction-agnostic edge types of Edge.__eq__ can be extracted', False, repr(e))]
+        return [('the direction-agnostic edge types of Edge.__eq__ are {--, <>, oo} (pinned by CG.C07.dontCare_eq)',
+                 sorted(texts) == sorted(['--', '<>', 'oo']), repr(texts))]
 
     # ------------------------------------------------------------------------------------------------
     def cases(self, tier, rng):
